@@ -7,6 +7,21 @@
 (*   sample        = (length in lengthSizeMinusOne+1 bytes big endian, NAL)*  *)
 (* The module is shaped like the library's API: a value is built, marshalled  *)
 (* to the wire, unmarshalled into a fresh value and marshalled again.         *)
+(*                                                                            *)
+(* Value families (every one is a dimension of the configuration):            *)
+(*   pattern  - Headers x lengthSize x SPS/PPS/NAL counts x cycled size       *)
+(*              patterns (long lists, the 5-bit / 8-bit counters)             *)
+(*   pos      - short NAL lists whose sizes are chosen INDEPENDENTLY for      *)
+(*              every position (first / middle / last) from PosSizes, for     *)
+(*              every length size: a length prefix is just bytes, e.g. the    *)
+(*              4-byte length of a 1-byte NAL unit is 00 00 00 01             *)
+(*   mimic    - short NAL lists whose payloads carry the byte strings         *)
+(*              00 00 01 / 00 00 00 01 (Annex-B start codes) at the start,    *)
+(*              in the middle or at the end, also behind a header byte 0:     *)
+(*              inside a length-prefixed container they are plain data        *)
+(*   matrix   - HeaderMatrix: <<profile, compat, level>> triples with a       *)
+(*              minimal body; the three bytes are independent 8-bit fields    *)
+(*              and the value read back is the byte                           *)
 EXTENDS Naturals, Sequences, LD
 
 CONSTANTS
@@ -14,7 +29,20 @@ CONSTANTS
   SpsCounts, PpsCounts, NalCounts,
   SizePatterns, \* set of sequences of NAL sizes (header byte included), cycled over the NALs
   MaxBytes,     \* only values whose encoding is at most this long
-  WithReserved  \* TRUE: the ISO layout; FALSE: named deviation 'reserved bits not written'
+  WithReserved, \* TRUE: the ISO layout; FALSE: named deviation 'reserved bits not written'
+  PosSizes,     \* NAL sizes (header byte included) chosen independently per position ...
+  PosCounts,    \* ... in sample NAL lists of these lengths
+  RecPosSizes,  \* the same for the SPS and the PPS list of a record ...
+  RecPosCounts, \* ... of these lengths (each list)
+  PosHeaders,   \* headers of the 'pos' and 'mimic' records
+  MimicSizes,   \* NAL sizes of the 'mimic' lists
+  Mimics,       \* set of [sc, w, nri, t]: start code length 0 (none) / 3 / 4, where "s" | "m" | "e", NAL header fields
+  MimicCounts,  \* lengths of the mimic NAL lists of a sample
+  HeaderMatrix, \* set of <<profile, compat, level>> for the 'matrix' records
+  MatrixLsm1,   \* their lengthSizeMinusOne values
+  Dev           \* named deviation of the READER: "none"
+                \*   "annexb": a sample that begins with 00 00 00 01 is taken for an Annex-B byte stream
+                \*   "refine": the profile / level read back are 'refined' by the constraint flags of the compatibility byte
 
 VARIABLES pc, kind, val, wire, back, wire2
 vars == <<pc, kind, val, wire, back, wire2>>
@@ -22,24 +50,61 @@ vars == <<pc, kind, val, wire, back, wire2>>
 Pow256(k) == CASE k = 1 -> 256 [] k = 2 -> 65536 [] k = 3 -> 16777216 [] k = 4 -> 2147483647
 
 \* ---------------------------------------------------------------- values
+\* A NAL value: header fields, n payload bytes of pattern id; sc > 0: the payload bytes at 0-based
+\* offsets at..at+sc-1 are the start code of length sc instead of the pattern.
+StartCode(sc) == IF sc = 3 THEN <<0, 0, 1>> ELSE <<0, 0, 0, 1>>
+
 \* The i-th NAL of a list: size from the pattern, header fields vary with i.
 MkNal(i, pat, salt) ==
   [nri |-> (i + salt) % 4, t |-> (i * 7 + salt) % 32,
-   n   |-> pat[((i - 1) % Len(pat)) + 1] - 1, id |-> i + 10 * salt]
+   n   |-> pat[((i - 1) % Len(pat)) + 1] - 1, id |-> i + 10 * salt, sc |-> 0, at |-> 0]
 MkNals(cnt, pat, salt) == [i \in 1..cnt |-> MkNal(i, pat, salt)]
 
-Records ==
-  { [profile |-> h[1], compat |-> h[2], level |-> h[3], lsm1 |-> l,
-     sps |-> MkNals(ns, pat, 1), pps |-> MkNals(np, pat, 2)] :
-      h \in Headers, l \in 0..3, ns \in SpsCounts, np \in PpsCounts, pat \in SizePatterns }
-Samples ==
-  { [lsm1 |-> l, nals |-> MkNals(c, pat, 3)] : l \in 0..3, c \in NalCounts, pat \in SizePatterns }
-NalUnits ==
-  { [nri |-> r, t |-> t, n |-> n, id |-> 5] : r \in 0..3, t \in 0..31, n \in {0, 1, 2} }
+\* sizes: a sequence of NAL sizes, one per position
+PosNals(sizes, salt) == [i \in 1..Len(sizes) |-> MkNal(i, <<sizes[i]>>, salt)]
+
+\* a NAL of the given size mimicking m (no start code if the payload is too short for it)
+MimicNal(i, size, m, salt) ==
+  LET n  == size - 1
+      sc == IF m.sc > 0 /\ n >= m.sc THEN m.sc ELSE 0
+      at == IF sc = 0 \/ m.w = "s" THEN 0 ELSE IF m.w = "m" THEN (n - sc) \div 2 ELSE n - sc
+  IN [nri |-> m.nri, t |-> m.t, n |-> n, id |-> i + 10 * salt, sc |-> sc, at |-> at]
+\* f: a sequence of <<size, mimic>>
+MimicNals(f, salt) == [i \in 1..Len(f) |-> MimicNal(i, f[i][1], f[i][2], salt)]
+
+Lists(S, counts) == UNION {[1..c -> S] : c \in counts}
+
+MkRecord(h, l, sps, pps) ==
+  [profile |-> h[1], compat |-> h[2], level |-> h[3], lsm1 |-> l, sps |-> sps, pps |-> pps]
+
+\* families as existential choices (TLC enumerates the dimensions, never one big set)
+PickRecord(v) ==
+  \/ \E h \in Headers, l \in 0..3, ns \in SpsCounts, np \in PpsCounts, pat \in SizePatterns :
+       v = MkRecord(h, l, MkNals(ns, pat, 1), MkNals(np, pat, 2))
+  \/ \E h \in PosHeaders, f \in Lists(RecPosSizes, RecPosCounts), g \in Lists(RecPosSizes, RecPosCounts) :
+       v = MkRecord(h, (Len(f) + 2 * Len(g)) % 4, PosNals(f, 1), PosNals(g, 2))
+  \/ \E h \in PosHeaders, l \in 0..3, f \in Lists(MimicSizes \X Mimics, {0, 1}), g \in Lists(MimicSizes \X Mimics, {1}) :
+       v = MkRecord(h, l, MimicNals(f, 1), MimicNals(g, 2))
+  \/ \E h \in HeaderMatrix, l \in MatrixLsm1 :
+       v = MkRecord(h, l, MkNals(1, <<2>>, 1), MkNals(1, <<1>>, 2))
+PickSample(v) ==
+  \/ \E l \in 0..3, c \in NalCounts, pat \in SizePatterns : v = [lsm1 |-> l, nals |-> MkNals(c, pat, 3)]
+  \/ \E l \in 0..3, f \in Lists(PosSizes, PosCounts) : v = [lsm1 |-> l, nals |-> PosNals(f, 3)]
+  \/ \E l \in 0..3, f \in Lists(MimicSizes \X Mimics, MimicCounts) : v = [lsm1 |-> l, nals |-> MimicNals(f, 3)]
+PickNalu(v) ==
+  \/ \E r \in 0..3, t \in 0..31, n \in {0, 1, 2} \cup {s - 1 : s \in PosSizes} :
+       v = [nri |-> r, t |-> t, n |-> n, id |-> 5, sc |-> 0, at |-> 0]
+  \/ \E s \in MimicSizes, m \in Mimics : v = MimicNal(5, s, m, 0)
 
 \* --------------------------------------------------------------- encoders
 NalHdr(nal)  == nal.nri * 32 + nal.t
-NalEnc(nal)  == <<U8(NalHdr(nal))>> \o (IF nal.n > 0 THEN <<Fill(nal.n, nal.id)>> ELSE <<>>)
+Payload(nal) ==
+  IF nal.n = 0 THEN <<>>
+  ELSE IF nal.sc = 0 THEN <<Fill(nal.n, nal.id)>>
+  ELSE (IF nal.at > 0 THEN <<FillOff(nal.at, nal.id, 0)>> ELSE <<>>)
+       \o <<Raw(StartCode(nal.sc))>>
+       \o (IF nal.n > nal.at + nal.sc THEN <<FillOff(nal.n - nal.at - nal.sc, nal.id, nal.at + nal.sc)>> ELSE <<>>)
+NalEnc(nal)  == <<U8(NalHdr(nal))>> \o Payload(nal)
 
 RECURSIVE ParamSets(_)
 ParamSets(nals) ==
@@ -65,7 +130,7 @@ Fits(s) == \A i \in 1..Len(s.nals) : 1 + s.nals[i].n < Pow256(s.lsm1 + 1)
 Enc(k, v) == CASE k = "record" -> RecEnc(v) [] k = "sample" -> SampleEnc(v) [] k = "nalu" -> NalEnc(v)
 
 \* ------------------------------------------- byte-level decoders (reference)
-\* A decoded NAL carries its payload bytes instead of (n, id).
+\* A decoded NAL carries its payload bytes instead of (n, id, sc, at).
 NalDec(b) == [nri |-> (b[1] \div 32) % 4, t |-> b[1] % 32, data |-> Drop(b, 1)]
 
 \* <<list of NALs, rest>> for cnt length-prefixed NALs with k-byte lengths
@@ -78,10 +143,22 @@ TakeNals(b, cnt, k) ==
            r == TakeNals(Drop(b, k + l), cnt - 1, k)
        IN <<<<NalDec(Sub(b, k + 1, l))>> \o r[1], r[2]>>
 
+\* deviation "refine": what some decoders derive from the constraint_set flags (constraint_set1 = 64,
+\* constraint_set3 = 16) - but the record's fields are the bytes
+Bit(v, m) == (v \div m) % 2 = 1
+RefinedProfile(p, c) ==
+  IF Dev # "refine" THEN p
+  ELSE IF p = 66 /\ Bit(c, 64) THEN 512 + p
+  ELSE IF p \in {110, 122, 144} /\ Bit(c, 16) THEN 2048 + p
+  ELSE p
+RefinedLevel(p, c, l) ==
+  IF Dev = "refine" /\ l = 11 /\ Bit(c, 16) /\ p \in {66, 77, 88} THEN 9 ELSE l
+
 RecDec(b) ==
   LET s == TakeNals(Drop(b, 6), b[6] % 32, 2)
       p == TakeNals(Drop(s[2], 1), s[2][1], 2)
-  IN [version |-> b[1], profile |-> b[2], compat |-> b[3], level |-> b[4], lsm1 |-> b[5] % 4,
+  IN [version |-> b[1], profile |-> RefinedProfile(b[2], b[3]), compat |-> b[3],
+      level |-> RefinedLevel(b[2], b[3], b[4]), lsm1 |-> b[5] % 4,
       reserved |-> <<b[5] \div 4, b[6] \div 32>>, sps |-> s[1], pps |-> p[1], rest |-> p[2]]
 
 RECURSIVE SampleDecNals(_, _)
@@ -89,25 +166,41 @@ SampleDecNals(b, k) ==
   IF b = <<>> THEN <<>>
   ELSE LET l == BEk(b, k) IN <<NalDec(Sub(b, k + 1, l))>> \o SampleDecNals(Drop(b, k + l), k)
 
+\* deviation "annexb": the pieces between the start codes 00 00 00 01
+IsSC4(b) == Len(b) >= 4 /\ Sub(b, 1, 4) = <<0, 0, 0, 1>>
+RECURSIVE SplitSC(_, _)
+SplitSC(b, cur) ==
+  IF b = <<>> THEN <<cur>>
+  ELSE IF IsSC4(b) THEN <<cur>> \o SplitSC(Drop(b, 4), <<>>)
+  ELSE SplitSC(Tail(b), Append(cur, Head(b)))
+PieceDec(p) == IF p = <<>> THEN [nri |-> 9, t |-> 99, data |-> <<>>]   \* no NAL unit at all (an error)
+               ELSE NalDec(p)
+SampleDec(b, k) ==
+  IF Dev = "annexb" /\ IsSC4(b)
+  THEN LET ps == SplitSC(Drop(b, 4), <<>>) IN [i \in 1..Len(ps) |-> PieceDec(ps[i])]
+  ELSE SampleDecNals(b, k)
+
 \* what a value looks like after decoding its own bytes
-CNal(nal)  == [nri |-> nal.nri, t |-> nal.t, data |-> [i \in 1..nal.n |-> FillByte(nal.id, i - 1)]]
+PayByte(nal, j) == IF nal.sc > 0 /\ j >= nal.at /\ j < nal.at + nal.sc
+                   THEN StartCode(nal.sc)[j - nal.at + 1] ELSE FillByte(nal.id, j)   \* j 0-based
+CNal(nal)  == [nri |-> nal.nri, t |-> nal.t, data |-> [i \in 1..nal.n |-> PayByte(nal, i - 1)]]
 CNals(s)   == [i \in 1..Len(s) |-> CNal(s[i])]
 CRec(r)    == [version |-> 1, profile |-> r.profile, compat |-> r.compat, level |-> r.level, lsm1 |-> r.lsm1,
                reserved |-> <<63, 7>>, sps |-> CNals(r.sps), pps |-> CNals(r.pps), rest |-> <<>>]
 
 Dec(k, v, b) == CASE k = "record" -> RecDec(b)
-                  [] k = "sample" -> SampleDecNals(b, v.lsm1 + 1)
+                  [] k = "sample" -> SampleDec(b, v.lsm1 + 1)
                   [] k = "nalu"   -> NalDec(b)
 Concrete(k, v) == CASE k = "record" -> CRec(v) [] k = "sample" -> CNals(v.nals) [] k = "nalu" -> CNal(v)
 
-\* re-encode a decoded (concrete) value
+\* re-encode a decoded (concrete) value; the profile and level fields of the wire are 8 bits
 CNalBytes(c) == <<c.nri * 32 + c.t>> \o c.data
 RECURSIVE CParamBytes(_, _)
 CParamBytes(cs, k) ==
   IF cs = <<>> THEN <<>>
   ELSE LET nb == CNalBytes(Head(cs)) IN Bytes(<<LenField(k, Len(nb))>>) \o nb \o CParamBytes(Tail(cs), k)
 ReEnc(k, v, c) ==
-  CASE k = "record" -> <<1, c.profile, c.compat, c.level, 252 + c.lsm1, 224 + Len(c.sps)>>
+  CASE k = "record" -> <<1, c.profile % 256, c.compat, c.level % 256, 252 + c.lsm1, 224 + Len(c.sps)>>
                         \o CParamBytes(c.sps, 2) \o <<Len(c.pps)>> \o CParamBytes(c.pps, 2)
     [] k = "sample" -> CParamBytes(c, v.lsm1 + 1)
     [] k = "nalu"   -> CNalBytes(c)
@@ -116,12 +209,22 @@ ReEnc(k, v, c) ==
 \* parameter sets carry a 16-bit length
 RecFits(r) == /\ \A i \in 1..Len(r.sps) : 1 + r.sps[i].n <= 65535
               /\ \A i \in 1..Len(r.pps) : 1 + r.pps[i].n <= 65535
-Values(k) == CASE k = "record" -> {r \in Records : RecFits(r) /\ ByteLenCap(RecEnc(r), MaxBytes) <= MaxBytes}
-               [] k = "sample" -> {s \in Samples : Fits(s) /\ ByteLenCap(SampleEnc(s), MaxBytes) <= MaxBytes}
-               [] k = "nalu"   -> NalUnits
-
+\* encoded lengths by arithmetic (checked against the layouts by the invariant SizeOk); no overflow: the NAL
+\* sizes are bounded by RecFits / Fits and the configured size classes, the lists by 31 + 255 resp. NalCounts
+RECURSIVE NalsLenFrom(_, _, _)
+NalsLenFrom(nals, i, k) == IF i > Len(nals) THEN 0 ELSE k + 1 + nals[i].n + NalsLenFrom(nals, i + 1, k)
+EncLen(k, v) == CASE k = "record" -> 7 + NalsLenFrom(v.sps, 1, 2) + NalsLenFrom(v.pps, 1, 2)
+                  [] k = "sample" -> NalsLenFrom(v.nals, 1, v.lsm1 + 1)
+                  [] k = "nalu"   -> 1 + v.n
+Admissible(k, v) ==
+  CASE k = "record" -> RecFits(v) /\ EncLen(k, v) <= MaxBytes
+    [] k = "sample" -> Fits(v) /\ EncLen(k, v) <= MaxBytes
+    [] k = "nalu"   -> TRUE
 Init == /\ kind \in {"record", "sample", "nalu"}
-        /\ val \in Values(kind)
+        /\ \/ kind = "record" /\ PickRecord(val)
+           \/ kind = "sample" /\ PickSample(val)
+           \/ kind = "nalu"   /\ PickNalu(val)
+        /\ Admissible(kind, val)
         /\ pc = "built" /\ wire = <<>> /\ back = <<>> /\ wire2 = <<>>
 
 Marshal   == pc = "built" /\ wire' = Bytes(Enc(kind, val)) /\ pc' = "wire"
@@ -134,7 +237,7 @@ Next == Marshal \/ Unmarshal \/ Remarshal
 Spec == Init /\ [][Next]_vars
 
 \* -------------------------------------------------------------- properties
-SizeOk     == pc # "built" => Len(wire) = ByteLen(Enc(kind, val))
+SizeOk     == pc # "built" => Len(wire) = ByteLen(Enc(kind, val)) /\ Len(wire) = EncLen(kind, val)
 RoundTrip  == pc \in {"back", "again"} => back = Concrete(kind, val)
 Canonical  == pc = "again" => wire2 = wire
 ReservedOk == (pc \in {"back", "again"} /\ kind = "record") => back.reserved = <<63, 7>>
